@@ -134,6 +134,11 @@ def constructed():
             ty = "i64" if abs(v) < (1 << 63) else "i128"
             out.append("%s * %s %s" % (rng.choice(OPS), G.fI(ty, v), G.fD(rng.randrange(-10 ** 6, 10 ** 6), k)))
             out.append("%s * %s %s" % (rng.choice(OPS), G.fD(rng.randrange(-10 ** 6, 10 ** 6), k), G.fI("i128", v)))
+    # Decimals at the ends of an integer type's range against that type's -1 / 1 / 2 / ends (T::MIN - 1 natively)
+    for dt, it in C.native_width_cases(rng):
+        op = rng.choice(OPS)
+        out.append("%s * %s %s" % (op, dt, it))
+        out.append("%s * %s %s" % (op, it, dt))
     # int operands at the type bounds, both positions, all scales
     for ty in OP_INT_TYPES:
         lo, hi = INT_TYPES[ty]
